@@ -161,7 +161,7 @@ def watcher_filter_case(pr):
     time.sleep(0.4)
     n0 = pr.count("s t")
     # irrelevant changes
-    irrelevant = ["src/in.txt~", "src/.in.txt.swp", "src/.in.txt.swx", "src/notes.md", "src/.zinoma/state", ".zinoma/x.checksums2", "elsewhere/in.txt"]
+    irrelevant = ["src/in.txt~", "src/.in.txt.swp", "src/.in.txt.swx", "src/notes.md", "src/mockup.png", "src/.zinoma/state", ".zinoma/x.checksums2", "elsewhere/in.txt"]
     for f in irrelevant:
         pr.write(f, "junk", record=False)
     pr.commands.append("create %s" % irrelevant)
@@ -307,8 +307,10 @@ def service_dependency_case(pr):
     log = pr.log()
     if p.returncode != 0 or "e b" not in log:
         return None
-    if not _pids(pr, "svc") or log.index("pid svc %d" % _pids(pr, "svc")[0]) > log.index("s b"):
-        return {"property": "C11", "expected": "the service is started before the build that depends on it", "observed": "log %s" % log}
+    out = pr.output_of(p)
+    # (the two shells race to their first line, so the order is read from zinoma's own report of what it started)
+    if "svc - Starting service" in out and "b - Building" in out and out.index("svc - Starting service") > out.index("b - Building"):
+        return {"property": "C11", "expected": "the service is started before the build that depends on it", "observed": out[-400:]}
     if "svc-up-during-b" not in log:
         return {"property": "C11", "expected": "the service is left running while the dependent build runs", "observed": "log %s" % log}
     time.sleep(0.2)
@@ -364,6 +366,131 @@ def service_restart_case(pr):
     return None
 
 
+def mixed_aggregate_case(pr):
+    """pack -> aggregate env -> [gen (slow build), db (service)]: pack starts only after gen finished and db started"""
+    ts = {"gen": {"build": logging_build("gen", sleep=1.0)}, "db": {"service": SVC}, "env": {"dependencies": ["gen", "db"]}, "env2": {"dependencies": ["env"]},
+          "pack": {"dependencies": ["env2"], "build": 'echo "s pack" >> "$ZLOG"\nsleep 0.7\nif kill -0 "$(cat svc.pid)" 2>/dev/null; then echo "svc-up-during-pack" >> "$ZLOG"; fi\necho "e pack" >> "$ZLOG"'}}
+    pr.write("zinoma.yml", yml(ts))
+    p = pr.spawn("pack")
+    if not pr.wait_exit(p, 30):
+        return {"property": ["C11", "C04"], "expected": "`zinoma pack` exits after pack (the service behind the aggregate is only a dependency)", "observed": "still running after 30 s; log %s" % pr.log(), "output": pr.output_of(p)[-400:]}
+    log = pr.log()
+    if p.returncode != 0 or "e pack" not in log:
+        return {"property": "C04", "expected": "exit 0 with pack built", "observed": "exit %s log %s" % (p.returncode, log), "output": pr.output_of(p)[-400:]}
+    if "e gen" not in log or log.index("e gen") > log.index("s pack"):
+        return {"property": ["C01", "C20"], "expected": "pack depends, through nested aggregates mixing a build and a service, on gen: it starts only after gen finished", "observed": "log %s" % log}
+    if "svc-up-during-pack" not in log:
+        return {"property": ["C01", "C11"], "expected": "the service db behind the aggregate is up while pack builds", "observed": "log %s" % log}
+    return None
+
+
+def service_invalidated_during_dependent_build_case(pr):
+    """watch mode: a build depends on a service; the service's input changes while the build runs - the build still
+    ends up done (repeated or completed), with the last input"""
+    pr.write("server.conf", "1")
+    pr.write("src/in.txt", "v1")
+    t = _copy_target(sleep=1.5)
+    t["dependencies"] = ["server"]
+    ts = {"server": {"input": [{"paths": ["server.conf"]}], "service": SVC}, "t": t}
+    pr.write("zinoma.yml", yml(ts))
+    p = pr.spawn("--watch", "t")
+    if not pr.wait_for(lambda: pr.count("s t") >= 1, WAIT):
+        return None
+    time.sleep(0.4)
+    pr.edit("server.conf", "2-longer")          # while t is building
+    if not pr.wait_for(lambda: (pr.read("out.txt") or "").strip() == "v1", WAIT):
+        return {"property": "C06", "expected": "the service's input changed while the dependent build was running: the build is completed or repeated, out.txt = v1", "observed": "out.txt = %r; log %s" % (pr.read("out.txt"), pr.log()[-8:]), "output": pr.output_of(p)[-500:]}
+    time.sleep(0.5)
+    pr.edit("src/in.txt", "v2")
+    if not pr.wait_for(lambda: (pr.read("out.txt") or "").strip() == "v2", WAIT):
+        return {"property": "C06", "expected": "a later change of the build's own input is built: out.txt = v2", "observed": "out.txt = %r; log %s" % (pr.read("out.txt"), pr.log()[-8:]), "output": pr.output_of(p)[-500:]}
+    return None
+
+
+def signal_during_input_command_case(how):
+    """the termination signal (or another target's failure) arrives while a slow `cmd_stdout` input is being evaluated"""
+    def fn(pr):
+        slow = 'echo "pid inputcmd $$" >> "$ZLOG"; sleep 6; echo v1'
+        ts = {"t": {"input": [{"cmd_stdout": slow}], "build": logging_build("t")}}
+        roots = ["t"]
+        if how == "failure":
+            ts["bad"] = {"build": 'while ! grep -q "pid inputcmd" "$ZLOG"; do sleep 0.05; done\nexit 1'}
+            roots = ["t", "bad"]
+        pr.write("zinoma.yml", yml(ts))
+        p = pr.spawn(*roots)
+        if not pr.wait_for(lambda: _pids(pr, "inputcmd"), WAIT):
+            return None
+        if how == "signal":
+            time.sleep(0.3)
+            os.kill(p.pid, signal.SIGTERM)
+        if not pr.wait_exit(p, 20):
+            return {"property": "C10", "expected": "zinoma exits", "observed": "still running after 20 s", "output": pr.output_of(p)[-300:]}
+        time.sleep(0.3)
+        left = [q for q in _pids(pr, "inputcmd") if _alive(q)]
+        if left:
+            return {"property": "C10", "expected": "every shell zinoma spawned (here: for a cmd_stdout input) is gone when it exits", "observed": "shell pid(s) %s still alive" % left}
+        return None
+    return fn
+
+
+def service_and_dependent_requested_case(order):
+    def fn(pr):
+        ts = {"db": {"service": SVC}, "migrate": {"dependencies": ["db"], "build": logging_build("migrate")}}
+        pr.write("zinoma.yml", yml(ts))
+        p = pr.spawn(*order)
+        if not pr.wait_for(lambda: "e migrate" in pr.log(), WAIT):
+            return None
+        time.sleep(2.0)
+        if p.poll() is not None:
+            return {"property": "C11", "expected": "`zinoma %s`: the service db is requested on the command line, so zinoma keeps running after migrate is built" % " ".join(order), "observed": "zinoma exited with %s" % p.returncode, "output": pr.output_of(p)[-400:]}
+        os.kill(p.pid, signal.SIGTERM)
+        pr.wait_exit(p, 8)
+        return None
+    return fn
+
+
+def watch_sibling_xoutput_case(pr):
+    """watch mode, producer in a sibling project: an out-of-band edit of its output re-runs the consumer"""
+    pr.write("lib/psrc/p.txt", "p0")
+    pr.write("lib/zinoma.yml", yml({"gen": {"input": [{"paths": ["psrc"]}], "output": [{"paths": ["gen.txt"]}], "build": logging_build("gen", body="cat psrc/p.txt > gen.txt")}}, name="lib"))
+    pr.write("app/own.txt", "o0")
+    pr.write("app/zinoma.yml", yml({"bundle": {"input": [{"paths": ["own.txt"]}, "lib::gen.output"], "output": [{"paths": ["bundle.txt"]}], "build": logging_build("bundle", body="cat ../lib/gen.txt own.txt > bundle.txt")}}, name="app", imports={"lib": "../lib"}))
+    r = pr.run("bundle", cwd=pr.path("app"))      # so that every declared path exists when watching begins
+    if r.rc != 0:
+        return None
+    pr.clear_log()
+    p = pr.spawn("--watch", "bundle", cwd=pr.path("app"))
+    time.sleep(1.5)
+    if p.poll() is not None:
+        return None
+    time.sleep(0.4)
+    n = pr.count("s bundle")
+    pr.edit("app/own.txt", "o1")
+    if not pr.wait_for(lambda: pr.count("e bundle") > n, WAIT):
+        return {"property": "C06", "expected": "a change of the consumer's own input re-runs it", "observed": "no re-run", "output": pr.output_of(p)[-300:]}
+    time.sleep(0.4)
+    n = pr.count("s bundle")
+    pr.edit("lib/gen.txt", "edited-by-hand")
+    if not pr.wait_for(lambda: pr.count("s bundle") > n, WAIT):
+        return {"property": ["C13", "C16", "C06"], "expected": "lib::gen's output (an input of bundle through lib::gen.output) was edited: bundle re-runs", "observed": "no re-run in %ss; log %s" % (WAIT, pr.log()[-6:]), "output": pr.output_of(p)[-400:]}
+    return None
+
+
+def wide_aggregate_equiv_case(pr):
+    """a wide, build-only aggregate behaves like its dependencies: in particular it exits"""
+    ts = dict(("step%d" % i, {"build": "true"}) for i in range(60))
+    ts["all"] = {"dependencies": sorted(k for k in ts)}
+    ts["outer"] = {"dependencies": ["all"]}
+    pr.write("zinoma.yml", yml(ts), record=False)
+    pr.files["zinoma.yml"] = "step0..step59: build `true`; all -> every step; outer -> all"
+    for rep in range(3):
+        r = pr.run("outer", timeout=30)
+        if r.timed_out or r.rc != 0:
+            return {"property": ["C20", "C11", "C04"], "expected": "requesting an aggregate over 60 builds exits 0 like requesting the builds (no service anywhere)", "observed": "exit %s, timed out: %s (run %d)" % (r.rc, r.timed_out, rep), "zinoma": r.brief()}
+        pr.remove(".zinoma")
+    return None
+
+
 def cases(seed, tier="quick"):
     C = lambda n, fn, what: Case("live", n, fn, what)
     return [
@@ -386,4 +513,12 @@ def cases(seed, tier="quick"):
         C("service-dependency", service_dependency_case, "service only depended on: up during the build, stopped at exit"),
         C("service-shared-deep", service_shared_deep_case, "service shared by a shallow and a deep dependent"),
         C("service-restart", service_restart_case, "restart stops the old instance first"),
+        C("mixed-aggregate", mixed_aggregate_case, "dependent of an aggregate mixing a build and a service"),
+        C("service-invalidated-during-dependent-build", service_invalidated_during_dependent_build_case, "service input changes while its dependent builds"),
+        C("signal-during-input-command", signal_during_input_command_case("signal"), "SIGTERM while a slow cmd_stdout input runs"),
+        C("failure-during-input-command", signal_during_input_command_case("failure"), "a failure elsewhere while a slow cmd_stdout input runs"),
+        C("service-and-dependent-requested", service_and_dependent_requested_case(["migrate", "db"]), "service requested together with a build that depends on it"),
+        C("service-and-dependent-requested-rev", service_and_dependent_requested_case(["db", "migrate"]), "the same, other order"),
+        C("watch-sibling-xoutput", watch_sibling_xoutput_case, "out-of-band edit of a sibling project's output"),
+        C("wide-aggregate-equiv", wide_aggregate_equiv_case, "wide build-only aggregate exits"),
     ]
